@@ -15,7 +15,7 @@ import random
 from typing import Any, Callable, Dict, List, Optional, Tuple
 
 from . import e3_c10 as C10
-from .e3_engine import Env, Violation, world_from_json, world_to_json
+from .e3_engine import Env, Violation, world_from_json, world_to_json, construct_violation
 from .refmodel import World
 
 PROP = "C17"
@@ -647,7 +647,13 @@ class C17Engine(C10.C10Engine):
 
 def run_ops(env: Env, wcomp: Dict[str, Any], ops: List[List[Any]]) -> Dict[str, Any]:
     """ops: C10 edit ops, or ["inject", cell, subseed]."""
-    eng = C17Engine(env, world_from_json(wcomp["w"]))
+    try:
+        eng = C17Engine(env, world_from_json(wcomp["w"]))
+    except Exception as ex:
+        bad = construct_violation(PROP, ex, "api")
+        if bad is None:
+            raise
+        return bad
     res: Dict[str, Any] = {"violation": None}
     try:
         pre = C10._initial_checks(eng)
@@ -693,7 +699,13 @@ def generate(env: Env, rseed: int, thorough: bool):
     g = stream(rseed, "workload")
     world = C10.gen_world(stream(rseed, "universe"), False)
     wj = world_to_json(world)
-    eng = C17Engine(env, world)
+    try:
+        eng = C17Engine(env, world)
+    except Exception as ex:
+        bad = construct_violation(PROP, ex, "api")
+        if bad is None:
+            raise
+        return {"w": wj, "via": "api"}, [], bad
     res: Dict[str, Any] = {"violation": None}
     try:
         pre = C10._initial_checks(eng)
